@@ -31,6 +31,7 @@ def in_scope(p):
 
 
 def make_taint(W):
+    P = W.prog
     def src_seed(t):
         p = strip_generics(t[1])
         return p.endswith("ServerConfig::seed") or (p.endswith("::seed") and "ServerConfig" in t[1])
@@ -56,6 +57,15 @@ def make_taint(W):
         n = callee_name(p)
         if n in ("len", "is_empty", "is_some", "is_none", "is_ok", "is_err", "capacity"):
             return True
+        if "fmt::rt::Argument" in p and n.startswith("new_") and len(t) > 3 and t[3] and t[3][0] in P.fns:
+            # a value of a local type with a hand-written Display/Debug is printed by that impl, and the impl is scanned as a sink of its own
+            # (its reads of secret fields are sources there): the call site hands over the value, it does not print its fields
+            tr = {"new_display": "Display", "new_debug": "Debug", "new_lower_hex": "LowerHex", "new_upper_hex": "UpperHex"}.get(n)
+            ct = P.fns[t[3][0]].blocks[t[3][1]].term
+            for sub in ct["fn"].get("substs", []):
+                ty = sub.replace("&mut ", "").replace("&", "").split("<")[0].strip()
+                if any((im.get("trait") or "").split("::")[-1] == tr and im.get("self_adt") == ty and not im.get("derived") and "fmt" in im.get("methods", {}) for im in P.impls):
+                    return True
         if n in ("verifying_key", "public_key_bytes", "public_key", "calc_srv_value", "srv_value", "make_cert", "make_dele", "make_srep"):
             return True
         if n == "sign" and ("Signer" in p or "MsgSigner" in p or "SigningKey" in p):
